@@ -228,6 +228,19 @@ func genResp(r *Rng) Sx {
 		}
 		ops = kept
 	}
+	if via <= 1 && r.Pct(10) {
+		// the route function writes through a Response of its own around the one it was handed (NewResponse(resp)), as
+		// code does that delegates to another container; the filter reads the one it passed on. Write, WriteHeader and
+		// the error writers only (an entity needs what the framework told the handed-over Response)
+		via = 4
+		kept := Ls{}
+		for _, op := range ops {
+			if k := sxInt(sxNth(op, 0)); k <= 2 {
+				kept = append(kept, op)
+			}
+		}
+		ops = kept
+	}
 	presetLen := ""
 	if r.Pct(12) {
 		presetLen = r.Pick([]string{"37", "0", "1048576"}) // a Content-Length announced on the response before anything is written
@@ -409,6 +422,10 @@ func runResp(raw Sx) (Sx, Sx) {
 			ws := new(restful.WebService)
 			ws.Path("/r")
 			ws.Route(ws.GET("/x").To(func(rq *restful.Request, rp *restful.Response) {
+				if via == 4 {
+					errs, full = runRespOps(restful.NewResponse(rp), ops, pretty, w)
+					return
+				}
 				errs, full = runRespOps(rp, ops, pretty, w)
 			}))
 			c.Add(ws)
